@@ -23,6 +23,8 @@ def run(ctx: Ctx) -> None:
     for k in range(ctx.pick(36, 400)):
         focus = [None, "dispatch", "energy", "dispatch", "inputs", None][k % 6]
         wk: Dict[str, Any] = {"focus": focus} if focus else {}
+        if focus is None and k % 6 == 5:
+            wk["pool"] = True          # requests that allow pooling (their hand-off fails on arrival: finding F15)
         if focus in (None, "dispatch") and k % 2 == 0:
             wk["dt"] = [37, 45, 60, 90][k % 4] if focus is None else None
             wk = {a: b for a, b in wk.items() if b is not None}
